@@ -302,6 +302,21 @@ def check_fault_flagged(case):
         raise Violation(f"fault-mass-balance:{which}", f"after a failure in iteration {case['fault_at'] - 1} the "
                         f"returned flux violates the mass balance by {res:.3e}", tags)
     _cost_matches(case, ref, u, float(d), wimg, tags, f"fault-distance-not-cost:{which}")
+    if point == "linear_solve" and case["fault_at"] >= 2:
+        # "still describes the last valid iterate": the same run limited to the iterations that
+        # completed before the failure returns the same flux and the same distance
+        ref_case = dict(case, opt=dict(case["opt"], num_iter=case["fault_at"] - 1))
+        ref_out = _run(ref_case)[0]
+        d_ref, info_ref, cap_ref = ref_out[0], ref_out[1], ref_out[2]
+        u_ref = cap_ref["solution"][: ref.num_faces]
+        rt = 0.0 if case["opt"]["linear_solver"] == "direct" else 1e-10
+        if np.all(np.isfinite(u_ref)) and len(info_ref["convergence_history"]["distance"]) == case["fault_at"] - 1:
+            if not np.allclose(u, u_ref, rtol=rt, atol=rt * (1 + np.abs(u_ref).max())) or \
+                    abs(float(d) - float(d_ref)) > rt * (1 + abs(float(d_ref))):
+                raise Violation("fault-not-last-valid-iterate", f"after a failure in iteration {case['fault_at'] - 1} "
+                                f"the returned flux / distance ({float(d)!r}) differ from the run stopped after "
+                                f"{case['fault_at'] - 1} iterations ({float(d_ref)!r}; max flux difference "
+                                f"{np.abs(u - u_ref).max():.3e})", tags)
     if point == "linear_solve" and its != case["fault_at"] - 1:
         raise Violation("fault-history", f"{its} iterations recorded, failure was injected in iteration "
                         f"{case['fault_at'] - 1}", tags)
